@@ -143,6 +143,41 @@ Section Closed.
     apply (session_inv kn o nilroots roots faults ops s0 sn tr); assumption.
   Qed.
 
+  (* a storage Put that returned success found no sticky write error and set none *)
+  Lemma put_ok_not_sticky kn s c d s' :
+    kn <> 0 -> fstep hdrdec kn s (FPut c d) = (s', ONil) -> ws_finalized s' = false.
+  Proof.
+    intros Hkn. unfold fstep. replace (kn =? 0) with false by lia. unfold st_put.
+    destruct (cid_parse c) as [p|]; [|discriminate]. destruct (ws_closed s); [discriminate|].
+    destruct (ws_finalized s) eqn:Ef; [discriminate|]. unfold put_one.
+    destruct (should_put _ _ _ _) as [[|]|e]; try discriminate.
+    - destruct (write_chunks _ _ _) as [[dv abs] ok]. destruct ok.
+      + intros H; inversion H; subst. exact Ef.
+      + destruct (abs =? _); [discriminate|]. destruct (ws_kind s) as [|[|]]; discriminate.
+    - intros H; inversion H; subst. exact Ef.
+  Qed.
+
+  Theorem v1_complete_after_successful_put kn o nilroots roots faults pre op s0 sn tr :
+    base_fits o -> hdr_ok nilroots roots ->
+    forallb (op_okb kn) (pre ++ [op]) = true -> ops_small (pre ++ [op]) ->
+    open_new (kind_of kn) o nilroots roots faults = Ok s0 ->
+    frun hdrdec kn s0 (pre ++ [op]) = (sn, tr) ->
+    w_v1 o = true -> (exists c d, op = FPut c d) \/ (exists bs, op = FPutMany bs) ->
+    snd (last tr (s0, ONil)) = ONil ->
+    wf_final (ws_file sn) = Some (roots, acked o nilroots roots (pre ++ [op]) (map obs_of tr)).
+  Proof.
+    intros Hfit Hh Hok Hsm Hopen Hrun Hv1 Hop Hlast.
+    apply (v1_always_wellformed kn o nilroots roots faults (pre ++ [op]) s0 sn tr); try assumption.
+    intros Hkn. rewrite frun_app in Hrun. destruct (frun hdrdec kn s0 pre) as [s1 t1].
+    cbn [frun] in Hrun. destruct (fstep hdrdec kn s1 op) as [s2 o2] eqn:E2.
+    inversion Hrun; subst sn tr. clear Hrun. rewrite last_last in Hlast. cbn [snd] in Hlast. subst o2.
+    destruct Hop as [(c & d & ->) | (bs & ->)].
+    - exact (put_ok_not_sticky kn s1 c d s2 Hkn E2).
+    - (* PutMany is not an operation of the storage front-ends *)
+      rewrite forallb_app in Hok. apply andb_true_iff in Hok. destruct Hok as [_ Hok]. cbn [forallb] in Hok.
+      unfold op_okb in Hok. replace (kn =? 0) with false in Hok by lia. discriminate.
+  Qed.
+
   (* a Put that returns an error: index untouched; file untouched, or -- plain io.Writer only -- the
      sticky write error is set *)
   Theorem failed_put_changes_nothing kn o nilroots roots faults ops s0 sn tr c d s' out :
